@@ -179,7 +179,7 @@ class Verifier:
             env[a.vararg.arg] = v
         return env
 
-    def verify_function(self, key: str, extra_requires: list | None = None) -> tuple[list[OblResult], dict]:
+    def verify_function(self, key: str, extra_requires: list | None = None, only_labels: set | None = None) -> tuple[list[OblResult], dict]:
         """Verify the function named by a contract key.  Returns obligation results and stats."""
         t0 = time.time()
         meta: dict[str, Any] = {"function": key, "paths": 0, "error": None}
@@ -233,6 +233,8 @@ class Verifier:
                 obls = split_obls
             for r in outcomes:
                 obls.extend(self.outcome_obligations(ex, k, fi, env, old, r))
+            if only_labels is not None:
+                obls = [o for o in obls if f"{key}/{o.label}" in only_labels]
             results = self.discharge_all(ex, obls, key, env)
             # vacuity: the precondition must be satisfiable
             vs = z3.Solver()
